@@ -5343,11 +5343,23 @@ func (a *taggedTemplateArray) equal(other objectImpl) bool {
 	return false
 }
 
+// The slices and the property cells of the instruction belong to the Program, which may run in several Runtimes
+// concurrently, whereas Object.defineProperty() or Object.freeze() on the template object write to them.
+func copyTaggedTmplValues(src []Value) []Value {
+	cells := make([]valueProperty, len(src))
+	dst := make([]Value, len(src))
+	for i, v := range src {
+		cells[i] = *v.(*valueProperty)
+		dst[i] = &cells[i]
+	}
+	return dst
+}
+
 func (c *getTaggedTmplObject) exec(vm *vm) {
 	cooked := vm.r.newArrayObject()
-	setArrayValues(cooked, c.cooked)
+	setArrayValues(cooked, copyTaggedTmplValues(c.cooked))
 	raw := vm.r.newArrayObject()
-	setArrayValues(raw, c.raw)
+	setArrayValues(raw, copyTaggedTmplValues(c.raw))
 
 	cooked.propValueCount = len(c.cooked)
 	cooked.lengthProp.writable = false
